@@ -72,6 +72,10 @@ class Buffer:
         self._acked_size = 0
 
     def add(self, data: bytes, ack_size: int) -> None:
+        if not ack_size:
+            # empty DATA frame: no payload and no flow-control credit; queueing
+            # it would be indistinguishable from the EOF marker
+            return
         self._unacked.put_nowait(UnackedData(data, len(data), ack_size))
 
     def eof(self) -> None:
